@@ -167,7 +167,7 @@ def span_for(rng, entries, hi=5.0, kind="I"):
 def boundary_biased_time(rng, entries, lo, hi, kind="I", outside=0.1, near=0.0):
     """A time that is, with high probability, an existing boundary or the
     midpoint of an entry/gap; sometimes outside the span; with probability *near* a time that misses a boundary by a sliver
-    (1e-12 .. 3e-9 relative: many ulps, yet far below any practical minimum interval length)."""
+    (5e-15 .. 3e-9 relative: from a few dozen ulps - the size of accumulated rounding noise - upwards, yet far below any practical minimum interval length)."""
     bounds = [lo, hi]
     for e in entries:
         bounds.append(e[0])
@@ -175,7 +175,7 @@ def boundary_biased_time(rng, entries, lo, hi, kind="I", outside=0.1, near=0.0):
             bounds.append(e[1])
     if near and rng.random() < near:
         b = rng.choice(bounds)
-        return b + rng.choice([-1, 1]) * rng.choice([3e-9, 1e-10, 1e-12]) * max(1.0, abs(b))
+        return b + rng.choice([-1, 1]) * rng.choice([3e-9, 1e-10, 1e-12, 5e-15]) * max(1.0, abs(b))
     r = rng.random()
     if r < 0.45:
         return rng.choice(bounds)
